@@ -13,7 +13,11 @@ verus! {
 struct Colour { r: u8, g: u8, b: u8 }
 #[verifier::external_body] struct TextFilter { x: u8 }
 impl TextFilter {
-    #[verifier::external_body] fn call(&self, s: &str) -> (r: Option<String>) { unimplemented!() }
+    // A6: a text filter is a pure function of its argument (fn pointer without state)
+    spec fn apply(&self, s: Seq<char>) -> Option<Seq<char>>;
+    #[verifier::external_body] fn call(&self, s: &str) -> (r: Option<String>)
+        ensures (r matches Some(x) ==> self.apply(s@) == Some(x@)), (r is None ==> self.apply(s@) is None),
+    { unimplemented!() }
     spec fn is_strikeout(&self) -> bool;
     #[verifier::external_body] fn strikeout() -> (r: TextFilter) ensures r.is_strikeout() { unimplemented!() }
 }
@@ -72,9 +76,21 @@ fn replace_newlines(s: &String) -> (r: String) ensures r@.len() == s@.len(), for
 fn vec_one<A>(a: A) -> (r: Vec<A>) ensures r@ == seq![a] { unimplemented!() }
 #[verifier::external_body]
 fn string_to_owned(s: &String) -> (r: String) ensures r@ == s@ { unimplemented!() }
-spec fn all_ws(s: Seq<char>) -> bool;
 #[verifier::external_body]
 fn str_all_whitespace(s: &str) -> (r: bool) ensures r == all_ws(s@) { s.chars().all(char::is_whitespace) }
+// the text after the first k filters of the stack have been applied in order (a filter returning None leaves the text as it is)
+spec fn filt(fs: Seq<TextFilter>, k: int, s: Seq<char>) -> Seq<char> decreases k {
+    if k <= 0 || k > fs.len() { s } else { let p = filt(fs, k - 1, s); match fs[k - 1].apply(p) { Some(x) => x, None => p } }
+}
+// what one call of add_inline_text hands to the open block (C03, C09, C16): unless it is white space between blocks, the block
+// gains exactly the kept characters of the filtered text, in order, tagged with the annotation stack (inside <pre>: the stack plus
+// one preformat annotation)
+spec fn emitted<A>(base: Seq<CItem<Vec<A>>>, ignorable: bool, fw: Option<WrappedBlock<Vec<A>>>, fs: Seq<TextFilter>, text: Seq<char>, stack: Seq<A>, pre: bool) -> bool {
+    if ignorable && all_ws(text) { true } else {
+        fw matches Some(w1) && exists|mt: Vec<A>, ct: Vec<A>| #[trigger] appended_b(base, w1.text@, w1.line.v@, w1.word.v@, kept(filt(fs, fs.len() as int, text)), mt, ct)
+            && (if pre { mt@.drop_last() == stack && ct@.drop_last() == stack && mt@.len() == stack.len() + 1 && ct@.len() == stack.len() + 1 } else { mt@ == stack && ct@ == stack })
+    }
+}
 // A5: the result of a text filter (at most one combining mark per character) is still short
 #[verifier::external_body]
 proof fn assume_filtered_short(s: Seq<char>) ensures short(s) {}
@@ -103,36 +119,44 @@ trait TextDecorator: Sized {
         ensures short(r@); //@w
 
     /// Return an annotation and rendering prefix for em
+    spec fn em_start_spec(&self) -> Seq<char>; //@w
     fn decorate_em_start(&self) -> (r: (String, Self::Annotation))
-        ensures short(r.0@); //@w
+        ensures short(r.0@), r.0@ == self.em_start_spec(); //@w
 
     /// Return a suffix for after an em.
+    spec fn em_end_spec(&self) -> Seq<char>; //@w
     fn decorate_em_end(&self) -> (r: String)
-        ensures short(r@); //@w
+        ensures short(r@), r@ == self.em_end_spec(); //@w
 
     /// Return an annotation and rendering prefix for strong
+    spec fn strong_start_spec(&self) -> Seq<char>; //@w
     fn decorate_strong_start(&self) -> (r: (String, Self::Annotation))
-        ensures short(r.0@); //@w
+        ensures short(r.0@), r.0@ == self.strong_start_spec(); //@w
 
     /// Return a suffix for after a strong.
+    spec fn strong_end_spec(&self) -> Seq<char>; //@w
     fn decorate_strong_end(&self) -> (r: String)
-        ensures short(r@); //@w
+        ensures short(r@), r@ == self.strong_end_spec(); //@w
 
     /// Return an annotation and rendering prefix for strikeout
+    spec fn strikeout_start_spec(&self) -> Seq<char>; //@w
     fn decorate_strikeout_start(&self) -> (r: (String, Self::Annotation))
-        ensures short(r.0@); //@w
+        ensures short(r.0@), r.0@ == self.strikeout_start_spec(); //@w
 
     /// Return a suffix for after a strikeout.
+    spec fn strikeout_end_spec(&self) -> Seq<char>; //@w
     fn decorate_strikeout_end(&self) -> (r: String)
-        ensures short(r@); //@w
+        ensures short(r@), r@ == self.strikeout_end_spec(); //@w
 
     /// Return an annotation and rendering prefix for code
+    spec fn code_start_spec(&self) -> Seq<char>; //@w
     fn decorate_code_start(&self) -> (r: (String, Self::Annotation))
-        ensures short(r.0@); //@w
+        ensures short(r.0@), r.0@ == self.code_start_spec(); //@w
 
     /// Return a suffix for after a code.
+    spec fn code_end_spec(&self) -> Seq<char>; //@w
     fn decorate_code_end(&self) -> (r: String)
-        ensures short(r@); //@w
+        ensures short(r@), r@ == self.code_end_spec(); //@w
 
     /// Return an annotation for the initial part of a preformatted line
     fn decorate_preformat_first(&self) -> Self::Annotation;
@@ -186,12 +210,14 @@ trait TextDecorator: Sized {
     }
 
     /// Return an annotation and rendering prefix for superscript text
+    spec fn superscript_start_spec(&self) -> Seq<char>; //@w
     fn decorate_superscript_start(&self) -> (r: (String, Self::Annotation))
-        ensures short(r.0@); //@w
+        ensures short(r.0@), r.0@ == self.superscript_start_spec(); //@w
 
     /// Return a suffix for after a superscript.
+    spec fn superscript_end_spec(&self) -> Seq<char>; //@w
     fn decorate_superscript_end(&self) -> (r: String)
-        ensures short(r@); //@w
+        ensures short(r@), r@ == self.superscript_end_spec(); //@w
 
     /// Finish with a document, and return extra lines to add to the rendered text.
     /// The urls are in the correct order for footnotes; if footnote references were
@@ -346,6 +372,12 @@ impl<D: TextDecorator> SubRenderer<D> {
         self.ann_stack@ == o.ann_stack@ && self.ws_stack@ == o.ws_stack@ && self.pre_depth == o.pre_depth && self.text_filter_stack@ == o.text_filter_stack@
     }
     spec fn same_config(&self, o: &Self) -> bool { self.width == o.width && self.options == o.options }
+    // content of the block that inline text is appended to: the open block, or a fresh one after a block boundary
+    spec fn block_base(&self) -> Seq<CItem<Vec<D::Annotation>>> {
+        if self.at_block_end || self.wrapping is None { Seq::empty() } else { all_ns((self.wrapping->Some_0).text@, (self.wrapping->Some_0).line.v@, (self.wrapping->Some_0).word.v@) }
+    }
+    // white space is ignored between blocks in collapsing modes
+    spec fn ign(&self) -> bool { !self.ws_mode_spec().preserve_spec() && self.at_block_end }
     spec fn ws_mode_spec(&self) -> WhiteSpace { if self.ws_stack@.len() > 0 { self.ws_stack@.last() } else { WhiteSpace::Normal } }
 }
 
@@ -953,6 +985,9 @@ impl<D: TextDecorator> SubRenderer<D> {
             // white space between blocks is ignored in collapsing modes (C13) //@w
             !old(self).ws_mode_spec().preserve_spec() && old(self).at_block_end && all_ws(text@) ==> r.is_ok() && *final(self) == *old(self), //@w @C13 #interblock_whitespace_ignored
             final(self).lines@.len() >= old(self).lines@.len() && final(self).lines@.take(old(self).lines@.len() as int) =~= old(self).lines@, //@w @C03 #inline_text_keeps_lines
+            // L2 (C03, C09, C16): the open block gains exactly the kept characters of the text as it comes out of the filter stack, //@w
+            // in order and tagged with the annotation stack; nothing else reaches it //@w
+            r.is_ok() ==> emitted(old(self).block_base(), old(self).ign(), final(self).wrapping, old(self).text_filter_stack@, text@, old(self).ann_stack@, old(self).pre_depth > 0), //@w @C03 @C09 @C16 #inline_text_reaches_block_verbatim
     {
         html_trace!("add_inline_text({}, {})", self.width, text);
         if !self.ws_mode().preserve_whitespace()
@@ -969,6 +1004,8 @@ impl<D: TextDecorator> SubRenderer<D> {
         // Do any filtering of the text
         for filter in it: &self.text_filter_stack
             invariant //@w
+                (match s { Some(x) => x@, None => text@ }) == filt(self.text_filter_stack@, it.index@, text@), //@w @C16 #filters_applied_in_order
+                !old(self).at_block_end ==> self.wrapping == old(self).wrapping, old(self).at_block_end ==> self.wrapping is None, //@w
                 self.sr_inv(), self.same_stacks(old(self)) && self.same_config(old(self)) && self.decorator == old(self).decorator, //@w
                 self.wtotal() <= old(self).wtotal() || self.wtotal() <= self.width, //@w
                 self.lines@.len() >= old(self).lines@.len() && self.lines@.take(old(self).lines@.len() as int) =~= old(self).lines@, //@w
@@ -981,7 +1018,11 @@ impl<D: TextDecorator> SubRenderer<D> {
         let filtered_text = opt_as_deref_or(&s, text);
         proof { assume_filtered_short(filtered_text@); } //@w
         let ws_mode = self.ws_mode();
+        assert(filtered_text@ == filt(old(self).text_filter_stack@, old(self).text_filter_stack@.len() as int, text@)); //@w @C16 #filters_applied_in_order
+        let ghost wr0 = self.wrapping; //@w
         let wrapping = get_wrapping_or_insert::<D>(&mut self.wrapping, &self.options, self.width);
+        let ghost base = all_ns(wrapping.text@, wrapping.line.v@, wrapping.word.v@); //@w
+        proof { if wr0 is None { lemma_all_ns_empty(wrapping.text@, wrapping.line.v@, wrapping.word.v@); } assert(base =~= old(self).block_base()); } //@w
         // tagging rule (C09, C12): text is tagged with the current annotation stack; inside <pre> the first piece of a line gets //@w
         // the stack + preformat-first, continuation pieces the stack + preformat-continuation //@w
         let ghost stack0 = self.ann_stack@; //@w
@@ -1005,6 +1046,9 @@ impl<D: TextDecorator> SubRenderer<D> {
         assert(self.pre_depth > 0 ==> main_tag@.drop_last() == stack0 && cont_tag@.drop_last() == stack0 && main_tag@.len() == stack0.len() + 1 && cont_tag@.len() == stack0.len() + 1); //@w @C09 @C12 #pre_text_tagged_with_stack_plus_preformat
         assert(ws_mode == old(self).ws_mode_spec()); //@w @C12 @C13 #text_added_in_current_ws_mode
         wrapping.add_text(filtered_text, ws_mode, main_tag, cont_tag)?;
+        proof { //@w[
+            assert(appended_b(base, wrapping.text@, wrapping.line.v@, wrapping.word.v@, kept(filtered_text@), *main_tag, *cont_tag));
+        } //@w]
         Ok(())
     }
 //@end
@@ -1062,6 +1106,8 @@ impl<D: TextDecorator> SubRenderer<D> {
             final(self).text_filter_stack@ == old(self).text_filter_stack@, //@w @C15 #filters_unchanged
             old(self).options.allow_width_overflow ==> r.is_ok(), //@w @C11
             r.is_ok() ==> final(self).wtotal() <= old(self).wtotal() + 0x4_0000_0000 || final(self).wtotal() <= old(self).width + 0x4_0000_0000, //@w @C01 #growth_bound
+            // the decorator's prefix goes to the open block verbatim, before the element's own text filter applies, already tagged with the new annotation (C16, C09) //@w
+            r.is_ok() ==> emitted(old(self).block_base(), old(self).ign(), final(self).wrapping, old(self).text_filter_stack@, old(self).decorator.em_start_spec(), final(self).ann_stack@, old(self).pre_depth > 0), //@w @C16 @C09 #prefix_emitted_verbatim
     {
         let (s, annotation) = self.decorator.decorate_em_start();
         self.ann_stack.push(annotation);
@@ -1083,6 +1129,8 @@ impl<D: TextDecorator> SubRenderer<D> {
             final(self).text_filter_stack@ == old(self).text_filter_stack@, //@w @C15 #filters_unchanged
             old(self).options.allow_width_overflow ==> r.is_ok(), //@w @C11
             r.is_ok() ==> final(self).wtotal() <= old(self).wtotal() + 0x4_0000_0000 || final(self).wtotal() <= old(self).width + 0x4_0000_0000, //@w @C01 #growth_bound
+            // the decorator's suffix goes to the open block verbatim, outside the element's own text filter, tagged like the element's text (C16, C09) //@w
+            r.is_ok() ==> emitted(old(self).block_base(), old(self).ign(), final(self).wrapping, old(self).text_filter_stack@, old(self).decorator.em_end_spec(), old(self).ann_stack@, old(self).pre_depth > 0), //@w @C16 @C09 #suffix_emitted_verbatim
     {
         let s = self.decorator.decorate_em_end();
         self.add_inline_text(&s)?;
@@ -1103,6 +1151,8 @@ impl<D: TextDecorator> SubRenderer<D> {
             final(self).text_filter_stack@ == old(self).text_filter_stack@, //@w @C15 #filters_unchanged
             old(self).options.allow_width_overflow ==> r.is_ok(), //@w @C11
             r.is_ok() ==> final(self).wtotal() <= old(self).wtotal() + 0x4_0000_0000 || final(self).wtotal() <= old(self).width + 0x4_0000_0000, //@w @C01 #growth_bound
+            // the decorator's prefix goes to the open block verbatim, before the element's own text filter applies, already tagged with the new annotation (C16, C09) //@w
+            r.is_ok() ==> emitted(old(self).block_base(), old(self).ign(), final(self).wrapping, old(self).text_filter_stack@, old(self).decorator.strong_start_spec(), final(self).ann_stack@, old(self).pre_depth > 0), //@w @C16 @C09 #prefix_emitted_verbatim
     {
         let (s, annotation) = self.decorator.decorate_strong_start();
         self.ann_stack.push(annotation);
@@ -1124,6 +1174,8 @@ impl<D: TextDecorator> SubRenderer<D> {
             final(self).text_filter_stack@ == old(self).text_filter_stack@, //@w @C15 #filters_unchanged
             old(self).options.allow_width_overflow ==> r.is_ok(), //@w @C11
             r.is_ok() ==> final(self).wtotal() <= old(self).wtotal() + 0x4_0000_0000 || final(self).wtotal() <= old(self).width + 0x4_0000_0000, //@w @C01 #growth_bound
+            // the decorator's suffix goes to the open block verbatim, outside the element's own text filter, tagged like the element's text (C16, C09) //@w
+            r.is_ok() ==> emitted(old(self).block_base(), old(self).ign(), final(self).wrapping, old(self).text_filter_stack@, old(self).decorator.strong_end_spec(), old(self).ann_stack@, old(self).pre_depth > 0), //@w @C16 @C09 #suffix_emitted_verbatim
     {
         let s = self.decorator.decorate_strong_end();
         self.add_inline_text(&s)?;
@@ -1144,6 +1196,8 @@ impl<D: TextDecorator> SubRenderer<D> {
             final(self).text_filter_stack@ == old(self).text_filter_stack@, //@w @C15 #filters_unchanged
             old(self).options.allow_width_overflow ==> r.is_ok(), //@w @C11
             r.is_ok() ==> final(self).wtotal() <= old(self).wtotal() + 0x4_0000_0000 || final(self).wtotal() <= old(self).width + 0x4_0000_0000, //@w @C01 #growth_bound
+            // the decorator's prefix goes to the open block verbatim, before the element's own text filter applies, already tagged with the new annotation (C16, C09) //@w
+            r.is_ok() ==> emitted(old(self).block_base(), old(self).ign(), final(self).wrapping, old(self).text_filter_stack@, old(self).decorator.code_start_spec(), final(self).ann_stack@, old(self).pre_depth > 0), //@w @C16 @C09 #prefix_emitted_verbatim
     {
         let (s, annotation) = self.decorator.decorate_code_start();
         self.ann_stack.push(annotation);
@@ -1166,6 +1220,8 @@ impl<D: TextDecorator> SubRenderer<D> {
             final(self).text_filter_stack@ == old(self).text_filter_stack@, //@w @C15 #filters_unchanged
             old(self).options.allow_width_overflow ==> r.is_ok(), //@w @C11
             r.is_ok() ==> final(self).wtotal() <= old(self).wtotal() + 0x4_0000_0000 || final(self).wtotal() <= old(self).width + 0x4_0000_0000, //@w @C01 #growth_bound
+            // the decorator's suffix goes to the open block verbatim, outside the element's own text filter, tagged like the element's text (C16, C09) //@w
+            r.is_ok() ==> emitted(old(self).block_base(), old(self).ign(), final(self).wrapping, old(self).text_filter_stack@, old(self).decorator.code_end_spec(), old(self).ann_stack@, old(self).pre_depth > 0), //@w @C16 @C09 #suffix_emitted_verbatim
     {
         let s = self.decorator.decorate_code_end();
         self.add_inline_text(&s)?;
@@ -1207,6 +1263,8 @@ impl<D: TextDecorator> SubRenderer<D> {
             final(self).text_filter_stack@ == old(self).text_filter_stack@, //@w @C15 #filters_unchanged
             old(self).options.allow_width_overflow ==> r.is_ok(), //@w @C11
             r.is_ok() ==> final(self).wtotal() <= old(self).wtotal() + 0x4_0000_0000 || final(self).wtotal() <= old(self).width + 0x4_0000_0000, //@w @C01 #growth_bound
+            // the decorator's prefix goes to the open block verbatim, before the element's own text filter applies, already tagged with the new annotation (C16, C09) //@w
+            r.is_ok() ==> emitted(old(self).block_base(), old(self).ign(), final(self).wrapping, old(self).text_filter_stack@, old(self).decorator.superscript_start_spec(), final(self).ann_stack@, old(self).pre_depth > 0), //@w @C16 @C09 #prefix_emitted_verbatim
     {
         let (s, annotation) = self.decorator.decorate_superscript_start();
         self.ann_stack.push(annotation);
@@ -1229,6 +1287,8 @@ impl<D: TextDecorator> SubRenderer<D> {
             final(self).text_filter_stack@ == old(self).text_filter_stack@, //@w @C15 #filters_unchanged
             old(self).options.allow_width_overflow ==> r.is_ok(), //@w @C11
             r.is_ok() ==> final(self).wtotal() <= old(self).wtotal() + 0x4_0000_0000 || final(self).wtotal() <= old(self).width + 0x4_0000_0000, //@w @C01 #growth_bound
+            // the decorator's suffix goes to the open block verbatim, outside the element's own text filter, tagged like the element's text (C16, C09) //@w
+            r.is_ok() ==> emitted(old(self).block_base(), old(self).ign(), final(self).wrapping, old(self).text_filter_stack@, old(self).decorator.superscript_end_spec(), old(self).ann_stack@, old(self).pre_depth > 0), //@w @C16 @C09 #suffix_emitted_verbatim
     {
         let s = self.decorator.decorate_superscript_end();
         self.add_inline_text(&s)?;
@@ -1252,6 +1312,8 @@ impl<D: TextDecorator> SubRenderer<D> {
             !old(self).options.use_unicode_strikeout ==> final(self).text_filter_stack@ == old(self).text_filter_stack@, //@w @C15 #no_filter_without_option
             old(self).options.allow_width_overflow ==> r.is_ok(), //@w @C11
             r.is_ok() ==> final(self).wtotal() <= old(self).wtotal() + 0x4_0000_0000 || final(self).wtotal() <= old(self).width + 0x4_0000_0000, //@w @C01 #growth_bound
+            // the decorator's prefix goes to the open block verbatim, before the element's own text filter applies, already tagged with the new annotation (C16, C09) //@w
+            r.is_ok() ==> emitted(old(self).block_base(), old(self).ign(), final(self).wrapping, old(self).text_filter_stack@, old(self).decorator.strikeout_start_spec(), final(self).ann_stack@, old(self).pre_depth > 0), //@w @C16 @C09 #prefix_emitted_verbatim
     {
         let (s, annotation) = self.decorator.decorate_strikeout_start();
         self.ann_stack.push(annotation);
@@ -1278,6 +1340,8 @@ impl<D: TextDecorator> SubRenderer<D> {
             !old(self).options.use_unicode_strikeout ==> final(self).text_filter_stack@ == old(self).text_filter_stack@, //@w @C15
             old(self).options.allow_width_overflow ==> r.is_ok(), //@w @C11
             r.is_ok() ==> final(self).wtotal() <= old(self).wtotal() + 0x4_0000_0000 || final(self).wtotal() <= old(self).width + 0x4_0000_0000, //@w @C01 #growth_bound
+            // the decorator's suffix goes to the open block verbatim, outside the element's own text filter, tagged like the element's text (C16, C09) //@w
+            r.is_ok() ==> emitted(old(self).block_base(), old(self).ign(), final(self).wrapping, final(self).text_filter_stack@, old(self).decorator.strikeout_end_spec(), old(self).ann_stack@, old(self).pre_depth > 0), //@w @C16 @C09 #suffix_emitted_verbatim
     {
         if self.options.use_unicode_strikeout {
             self.text_filter_stack
